@@ -27,10 +27,10 @@ func (m *memberRec) Member(id ast.Node, obj types.Object) { m.objs = append(m.ob
 func (m *memberRec) Call(fn ast.Node, obj types.Object)   {}
 
 type c08Case struct {
-	Src  string        `json:"src"`
-	Mode string        `json:"mode"`
-	Name string        `json:"name"`
-	Occ  []gen.SelOcc  `json:"occ"`
+	Src  string       `json:"src"`
+	Mode string       `json:"mode"`
+	Name string       `json:"name"`
+	Occ  []gen.SelOcc `json:"occ"`
 }
 
 func occString(occ []gen.SelOcc) string {
